@@ -1002,7 +1002,12 @@ class Intrinsics:
                 P.oblige(f'pre@{name}[{k}]', 'pre', cond)
                 P.assume(cond, fact=True)
         if c.post is not None:
-            for k, cond in ex._call_spec(P, c.post, bound).items():
+            P.hints_off = getattr(P, 'hints_off', 0) + 1      # case_split hints are for the lemma's own proof
+            try:
+                clauses = ex._call_spec(P, c.post, bound)
+            finally:
+                P.hints_off -= 1
+            for k, cond in clauses.items():
                 P.assume(P.truthy(cond), fact=True)
         P.modular.add(name)
         return True
